@@ -23,7 +23,7 @@ class C09(ChanSpec):
                   "ctx.Write); custom Channel implementations are outside the repair.")
     rule = ("per scenario: sync or queued channel (capacity 1/2/4/8), pipeline plain / delimiter+text / 2-byte length field, 2-3 goroutines with 1-2 messages each: []byte, [][]byte, "
             "*bytes.Buffer, a WriterTo doing 2-3 writes, io.MultiReader of 2-3 parts, a plain io.Reader (sizes 3-40 bytes and 1024/1500/2100 = at and above the streaming chunk), strings; "
-            "self-describing payloads (<T<writer>.<seq>:...>); also varint, varint+text and packet pipelines, bodies of 130/300 bytes (two-byte varint prefix)")
+            "self-describing payloads (<T<writer>.<seq>:...>); also varint, varint+text and packet pipelines, bodies of 130/300 bytes (two-byte varint prefix); messages enter through Channel.Write (1/2), HandlerContext.Write of the last handler (1/4) or Pipeline.FireChannelWrite (1/4); 1/10 of the scenarios queue two-part messages of 70000 bytes (queue 4/8) behind the sender")
     assumptions = ("no write fails in these scenarios (failure atomicity is C01's subject)",)
 
     def extra_coverage(self, pairs):
